@@ -85,4 +85,21 @@ def unrewrite (fields : List PField) (pattern : Str) : Outcome Str :=
 def fieldsOf (props : List Str) : List PField :=
   props.map fun n => { name := toSnake n, json := n }
 
+/-! ## the side conditions of the round trip, as decidable predicates -/
+
+/-- every literal (non-parameter) part of the path is free of the four bytes the consumer gives a
+meaning to. The compiler does **not** check this (open finding `path:literal-rejected-downstream`). -/
+def LiteralsClean (path : Str) : Prop :=
+  ∀ part ∈ splitOnByte 47 path, paramName? part = none → containsSpecial part = false
+
+instance (path : Str) : Decidable (LiteralsClean path) := by unfold LiteralsClean; infer_instance
+
+/-- distinct request properties get distinct proto field names. Holds for every package the
+compiler accepts: protobuf rejects a message with two fields of one name. -/
+def SnakeInjective (props : List Str) : Prop :=
+  ∀ a ∈ props, ∀ b ∈ props, toSnake a = toSnake b → a = b
+
+instance (props : List Str) : Decidable (SnakeInjective props) := by
+  unfold SnakeInjective; infer_instance
+
 end J5V.Pipe
